@@ -11,6 +11,7 @@ claims={
  "C03":("Per-instance accounting proved for every path and any number of iterations of instance.Run: one release per acquired ammo, a token is drawn only while ammo is held, at most one shot or discard per token, request/response counters equal shots; the global min(tokens, ammo) law over interleavings of instances is out of reach (stated).","DESIGN.md §5 C03"),
  "C04":("Waiter proved on a ghost clock for all token times and clock histories: no return before the token time, lateness measured with a clock sample taken in the call, 2 s window exact; the instance iteration discards only when enabled and late, shoots only when not late.","DESIGN.md §5 C04"),
  "C05":("Every exit path of the pool orchestration functions (all select orders as nondeterministic choice): wait group released exactly once, a nil result only after a clean await, every awaited result examined and every real failure handed on with its cause, delivered unless the pool context is done; liveness/promptness out of reach (stated).","DESIGN.md §5 C05"),
+ "C06":("Per-function proof for all timestamps at least 1 s after the epoch, all field values and every exit path: the phout timestamp is the decimal text of the millisecond time with the dot before its last three digits (quantified array contract, shift loop by invariant); a line is timestamp, tab, tag (#id), then the ten fields in index order each after a tab, written once per handled sample with a newline; the phout run flushes and closes on every exit and drains the queue after the context is done; Reporter.Report queues or counts a drop, never both or neither, and DroppedErr carries exactly the count; the encoder aggregator encodes every received sample, finishes the encoder and closes the sink on every exit and fails on drops; provider and aggregator run under the run context; the process exits only after waiting for the engine's tasks. Concurrent Report racing the final drain and jsoniter's output are out of reach (stated).","DESIGN.md §5 C06"),
  "C07":("Per-function proof for all line contents, header sets and passes (string operations through assumed contracts of strings/strconv/bufio): each decoder hands Setup exactly the parsed method, URL, body of the announced size, tag and header set; in-file header lines update the common header and yield no entry; blank lines yield nothing; an unterminated last line is decoded; a pass ends only at end of file and forgets in-file headers; JSON array entries are delivered in file order wrapping around, each with its own header copy; BuildRequest builds the request from exactly the stored fields; Acquire hands out the built request with the entry's tag and a new id.","DESIGN.md §5 C07"),
  "C09":("Per-function proof for all header sets, ssl on/off, every path of BaseGun.Shoot and ScenarioGun.prepareRequest: scheme follows the ssl option, URL host is the resolved target, the ammo's Host wins and defaults to the target's host, method/path/query/headers/body are not assigned; configured headers are added only where the entry does not define the header (uri, uripost, raw, json alike; Host only when the request has none); the transport is configured exactly as the options say and each gun owns one client built from its own configuration. Bytes on the wire and connection reuse are net/http behaviour: not reachable (stated).","DESIGN.md §5 C09"),
  "C08":("Counter contracts of the decoders/providers proved for all (limit, passes, n): pass counter equals delivered div n, pass limit reached exactly after passes*n entries.","DESIGN.md §5 C08"),
